@@ -149,8 +149,11 @@ def render_surface(items, surf):
         for _ in range(s['blank_before']):
             lines.append(s['trail'])
             kinds.add('blank-lines')
-        if directive:
-            lines.append(text)
+        if directive and it['t'] in ('define', 'include', 'createzone'):
+            # the text after these directives is their argument: only indentation is added
+            if s['indent']:
+                kinds.add('indentation-or-trailing-blanks')
+            lines.append(s['indent'] + text)
         else:
             if s['indent'] or s['trail']:
                 kinds.add('indentation-or-trailing-blanks')
